@@ -4,7 +4,8 @@
  * "process dies": siglongjmp out of the procedure, contexts abandoned) can be armed; the procedure is then started again on the
  * partially written target with fresh contexts, as a restarted zckdl would.
  *
- * UPDATE <Bfile> <Afile|-> <tgtfile> <max_ranges> <frag: - | bN> <kill: - | k:part>      part = 0 | h | a  (none / half / all bytes of the k-th write)
+ * UPDATE <Bfile> <Afile|-> <tgtfile> <max_ranges> <frag: - | bN> <kill: - | k:part> [<drop: r:n>]   part = 0 | h | a  (none / half / all bytes of the
+ * k-th write);  drop r:n = in round r the connection drops after n body bytes and the client simply goes on to the next round
  * kill may be a list k:p,k:p,..: the i-th entry applies to the i-th run (repeated interruptions); only the run that completes is printed
  *  -> OK hdr=<a-b;..> scan=<ret>:<flags> copy=<flags> reqs=<r;r;..> rounds=<n> vd=<ret> missing=<n> writes=<n>
  *        [killed=<k> kscan.. r.hdr= r.scan= r.copy= r.reqs= r.rounds= r.vd= r.missing=] len=<n> file=<bytes> rx.. rc..
@@ -16,7 +17,9 @@ static void upd_app(char **log, size_t *len, const char *s) {
 
 /* feed `body` to a write callback in pieces of `frag` bytes (0 = one piece); returns 0 when a callback refuses */
 typedef size_t (*wcb_t)(void *, size_t, size_t, void *);
+static long upd_cut = -1;      /* >= 0: the connection drops after this many body bytes of the current transfer */
 static int upd_feed(wcb_t cb, zckDL *dl, const unsigned char *body, size_t bl, size_t frag) {
+    if(upd_cut >= 0 && (size_t)upd_cut < bl) bl = upd_cut;
     size_t pos = 0;
     while(pos < bl) {
         size_t len = bl - pos; if(frag && len > frag) len = frag;
@@ -86,6 +89,7 @@ static int upd_dl_bytes(zckDL *dl, int fd, const unsigned char *B, size_t Bl, si
 }
 
 /* one complete run of the procedure; prints its tokens with `pfx`; returns 1 when it ran to the end */
+static int upd_drop_round = 0; static long upd_drop_bytes = -1;
 static int upd_run(FILE *out, const char *pfx, const char *Bp, const char *Ap, const char *Tp, int max_ranges, size_t frag) {
     size_t Bl; unsigned char *B = slurp(Bp, &Bl);
     zckCtx *src = NULL;
@@ -125,7 +129,9 @@ static int upd_run(FILE *out, const char *pfx, const char *Bp, const char *Ap, c
             char *rs = zck_get_range_char(src, range);
             if(rs == NULL) { fprintf(out, " %serr=range-char", pfx); return 0; }
             upd_app(&rl, &rll, rll ? ";" : ""); upd_app(&rl, &rll, *rs ? rs : "-");
+            upd_cut = (upd_drop_round == rounds) ? upd_drop_bytes : -1;     /* this transfer is cut short; the client retries */
             int ok = *rs ? upd_serve(dl, B, Bl, rs, zck_write_chunk_cb, frag) : 0;
+            upd_cut = -1;
             free(rs);
             zck_dl_set_range(dl, NULL);
             zck_range_free(&range);
@@ -154,6 +160,8 @@ static void copy_file(const char *from, const char *to) {
 static void op_update(FILE *out, const char *id, char **a, int n) {
     int max_ranges = atoi(a[3]);
     size_t frag = a[4][0] == 'b' ? strtoull(a[4] + 1, NULL, 10) : 0;
+    upd_drop_round = 0; upd_drop_bytes = -1;
+    if(n >= 7 && strchr(a[6], ':')) { upd_drop_round = atoi(a[6]); upd_drop_bytes = atol(strchr(a[6], ':') + 1); }
     fprintf(out, "%s OK", id);
     rx_on = 1; rx_dl = NULL;
     /* kill list "k:p,k:p,...": the i-th entry applies to the i-th run of the procedure */
